@@ -86,24 +86,26 @@ type pegPair struct {
 func (p *pegPair) coinOrigin() bool { return p.kind == kCoin || p.kind == kVoucher }
 
 type pegEnv struct {
-	r      *report.R
-	id     string
-	rng    *rand.Rand
-	n      *vn.Node
-	abi    abi.ABI
-	pairs  []*pegPair
-	who    []common.Address
-	names  map[common.Address]string
-	owner  vn.Account
-	thief  vn.Account
-	module common.Address
+	r               *report.R
+	id              string
+	rng             *rand.Rand
+	n               *vn.Node
+	abi             abi.ABI
+	pairs           []*pegPair
+	who             []common.Address
+	names           map[common.Address]string
+	owner           vn.Account
+	thief           vn.Account
+	module          common.Address
 	escrow, escrowB common.Address // ICS-20 escrow accounts of the two channel ends
-	lb      *vn.Loopback
-	flight  []*pegPacket
+	lb              *vn.Loopback
+	follow          *pegPair
+	followLeft      int
+	flight          []*pegPacket
 	erc20On, hookOn bool
-	ops    []string
-	lastLog string
-	nops   int
+	ops             []string
+	lastLog         string
+	nops            int
 }
 
 func bz(v int64) *big.Int { return big.NewInt(v) }
@@ -388,7 +390,7 @@ func proxyInit(impl, owner common.Address, pre map[common.Address]*big.Int) []by
 // storage layout of the compiled ERC20MinterBurnerDecimals (checked against the honest token at run time)
 var c10Layout = struct {
 	balances, totalSupply, name, symbol, decimals uint64
-	decimalsWord                                func(d uint8) *big.Int
+	decimalsWord                                  func(d uint8) *big.Int
 }{balances: 2, totalSupply: 4, name: 5, symbol: 6, decimals: 7, decimalsWord: func(d uint8) *big.Int { return new(big.Int).Lsh(big.NewInt(int64(d)), 8) }}
 
 // ---- reference ledger --------------------------------------------------------------------
@@ -420,7 +422,7 @@ func (e *pegEnv) tokMove(p *pegPair, from, to common.Address, x *big.Int) ([]*bi
 			toModule = append(toModule, half)
 		}
 	default:
-		if p.kind == kDelayed && to == e.module && e.erc20On && e.hookOn && !p.gone {
+		if p.kind == kDelayed && to == e.module && !p.gone {
 			// the token announces an allowance over the module's escrow: the hook must refuse the transaction
 			return nil, opErr("Approval event over the module's tokens")
 		}
@@ -722,7 +724,17 @@ func (e *pegEnv) step() {
 	n := e.n
 	a := e.acc()
 	k := e.rng.Intn(100)
+	if e.follow != nil && !e.follow.broken {
+		// right after a switch was thrown: conversion attempts on the pair concerned, over every path
+		p = e.follow
+		k = []int{5, 15, 25, 25, 40, 50, 99, 80}[e.rng.Intn(8)]
+		if e.followLeft--; e.followLeft <= 0 {
+			e.follow = nil
+		}
+	}
 	switch {
+	case k == 99:
+		e.transferFrom(p)
 	case k < 11: // MsgConvertCoin
 		a = e.holder(p.coin)
 		x := e.amount(e.get(p.coin, a.Eth))
@@ -831,6 +843,7 @@ func (e *pegEnv) step() {
 			}
 			e.logOp("%s: toggle conversion -> %v", p.kind, p.enabled)
 			e.r.Count("toggles/pair", 1)
+			e.follow, e.followLeft = p, 2+e.rng.Intn(4)
 		case 2:
 			e.erc20On = !e.erc20On
 			prm := n.App.Erc20Keeper.GetParams(n.Ctx())
@@ -862,7 +875,7 @@ func (e *pegEnv) step() {
 			if e.get(p.allow, victim).Cmp(x) < 0 {
 				return opErr("no allowance")
 			}
-			if victim == e.module && e.erc20On && e.hookOn && !p.gone {
+			if victim == e.module && !p.gone {
 				// spending an allowance re-announces it (Approval event with the module as owner)
 				return opErr("Approval event over the module's tokens")
 			}
@@ -874,8 +887,10 @@ func (e *pegEnv) step() {
 			p.tok[e.thief.Eth] = new(big.Int).Add(e.get(p.tok, e.thief.Eth), x)
 			return nil
 		})
-	case k < 97: // IBC packets over the loopback channel pair
+	case k < 95: // IBC packets over the loopback channel pair
 		e.ibc(p, a)
+	case k < 98:
+		e.transferFrom(p)
 	default: // the owner destroys the self-destructible token
 		p = nil
 		for _, q := range e.pairs {
@@ -894,6 +909,46 @@ func (e *pegEnv) step() {
 			e.r.Nontriv(p.kind + "/destroyed")
 		}
 		e.check("destroy", p)
+	}
+}
+
+// transferFrom: an approved spender moves a holder's tokens (to the module address = conversion for the holder).
+func (e *pegEnv) transferFrom(p *pegPair) {
+	h := e.holder(p.tok)
+	sp := e.acc()
+	to := e.module
+	if e.rng.Intn(4) == 0 {
+		to = e.acc().Eth
+	}
+	x := e.amount(e.get(p.tok, h.Eth))
+	okA, _ := e.ethCall(h, p.token, e.pack("approve", sp.Eth, x), 500_000)
+	if !okA && !p.dead {
+		return
+	}
+	e.logOp("%s: transferFrom(%s -> %s, %s) by approved spender %s", p.kind, e.names[h.Eth], e.names[to], x, e.names[sp.Eth])
+	ok, _ := e.ethCall(sp, p.token, e.pack("transferFrom", h.Eth, to, x), 1_500_000)
+	opn := "transfer-from-to-user"
+	if to == e.module {
+		opn = "transfer-from-to-module"
+	}
+	e.settle(p, opn, ok, func() error {
+		if p.dead {
+			return nil
+		}
+		if e.get(p.tok, h.Eth).Cmp(x) < 0 {
+			return opErr("token balance too small")
+		}
+		// transferFrom is the standard implementation in all four contracts
+		p.tok[h.Eth] = new(big.Int).Sub(p.tok[h.Eth], x)
+		p.tok[to] = new(big.Int).Add(e.get(p.tok, to), x)
+		if to == e.module {
+			e.hook(p, h.Eth, []*big.Int{x})
+		}
+		return nil
+	})
+	if !ok && !p.dead {
+		// take the unused allowance back so that later operations start from none
+		e.ethCall(h, p.token, e.pack("approve", sp.Eth, bz(0)), 500_000)
 	}
 }
 
